@@ -13,6 +13,9 @@ inductive Tok where
   | bool (b : Bool) | int (i : Int) | real | str (bs : Bytes) | name (cs : Bytes)
   | arrStart | arrEnd | dictStart | dictEnd
   | kStream | kEndStream | kObj | kEndObj | kStartXRef | null | comment | eof
+  /-- the bare keyword `R`: the code returns `Token::Name("R")` for it, as for the name `/R`, and
+  remembers in `last_token_was_ref_keyword` (until the next `next_token` call) that it was the keyword -/
+  | refKw
 deriving Repr, DecidableEq
 
 structure LexOpts where
@@ -168,11 +171,12 @@ def readNumber (inp : Bytes) : Outcome (Tok × Bytes) :=
       -- `str::parse::<f64>` : at least one mantissa digit; an exponent needs a digit
       if d.1.length + f.2.1.length ≥ 1 ∧ (!e.1 || e.2.1.length ≥ 1) then .ok (.real, e.2.2) else .err
     else
-      -- `str::parse::<i64>` : at least one digit, value in range (failure is an error, not a panic)
+      -- `str::parse::<i64>` : at least one digit; a value out of range (Pos/NegOverflow) is parsed as
+      -- `f64` and returned as a real; any failure is an error, not a panic
       if d.1.isEmpty then .err
       else
         let v : Int := if s.1 then -(digitsVal d.1 : Int) else (digitsVal d.1 : Int)
-        if I64MIN ≤ v ∧ v ≤ I64MAX then .ok (.int v, e.2.2) else .err
+        if I64MIN ≤ v ∧ v ≤ I64MAX then .ok (.int v, e.2.2) else .ok (.real, e.2.2)
 
 def keywordTok (w : Bytes) : Outcome Tok :=
   if w == [116, 114, 117, 101] then .ok (.bool true)
@@ -207,9 +211,9 @@ def lexOf (x : Outcome (Tok × Bytes)) : LexRes :=
   | .panic k => ⟨.panic k, [], 1⟩
   | .diverge => ⟨.diverge, [], 1⟩
 
-/-- `Lexer::next_token` with an empty push-back buffer.  The white-space skip is a loop of the same
-activation; the `;` arm, the lenient-syntax skip and the lenient-encoding skip call `next_token`
-again (a tail call the debug build does not turn into a loop). -/
+/-- `Lexer::next_token` with an empty push-back buffer.  The white-space skip, the `;` arm, the
+lenient-syntax skip and the lenient-encoding skip all `continue` the `loop` of the same activation
+(before the repair they called `next_token` again, see `nextTokenOld`): `depth` is always 1. -/
 def nextToken (o : LexOpts) : Bytes → LexRes
   | [] => ⟨.ok .eof, [], 1⟩
   | b :: rest =>
@@ -232,7 +236,7 @@ def nextToken (o : LexOpts) : Bytes → LexRes
       let (w, r) := readWord (b :: rest)
       lexOf (do let t ← keywordTok w; pure (t, r))
     else if b == 43 || b == 45 || isDigit b || b == 46 then lexOf (readNumber (b :: rest))
-    else if b == 82 then ⟨.ok (.name [82]), rest, 1⟩
+    else if b == 82 then ⟨.ok .refKw, rest, 1⟩
     else if isAlpha b then
       let (w, r) := readWord (b :: rest)
       -- `true` / `false` / `null` reach `process_keyword` only through t/f/n
@@ -242,19 +246,13 @@ def nextToken (o : LexOpts) : Bytes → LexRes
         | .bool _ => .err
         | .null => .err
         | t => pure (t, r))
-    else if b == 59 then
-      let r := nextToken o rest
-      ⟨r.tok, r.rest, r.depth + 1⟩
+    else if b == 59 then nextToken o rest
     else if isProblematic o b then
       if o.lenientEncoding then
         if (dropWs rest).isEmpty then ⟨.err, [], 1⟩
-        else
-          let r := nextToken o rest
-          ⟨r.tok, r.rest, r.depth + 1⟩
+        else nextToken o rest
       else ⟨.err, [], 1⟩
-    else if o.lenientSyntax then
-      let r := nextToken o rest
-      ⟨r.tok, r.rest, r.depth + 1⟩
+    else if o.lenientSyntax then nextToken o rest
     else ⟨.err, [], 1⟩
 
 /-- all tokens up to `Eof` or the first error; returns the tokens, whether it ended in an error,
@@ -295,42 +293,72 @@ def PS.next (o : LexOpts) (s : PS) : Outcome Tok × PS :=
     let r := nextToken o s.inp
     (r.tok, { s with inp := r.rest, lexDepth := max s.lexDepth r.depth })
 
-def PS.push (s : PS) (t : Tok) : PS := { s with buf := t :: s.buf }
+/-- `push_token`: a token that comes back out of the buffer is never "the keyword just lexed"
+(`next_token` clears the flag before it pops) -/
+def PS.push (s : PS) (t : Tok) : PS :=
+  { s with buf := (match t with
+    | .refKw => .name [82]
+    | t => t) :: s.buf }
+
+/-- `Token::Name(key)` of the dictionary loop (the keyword `R` is such a token) -/
+def tokKey : Tok → Option Bytes
+  | .name k => some k
+  | .refKw => some [82]
+  | _ => none
 
 structure PR (α : Type) where
   val : Outcome α
   st : PS
-  /-- deepest nesting of `parse_from_token_with_options` activations -/
+  /-- deepest nesting of `parse_from_token_nested` activations -/
   depth : Nat
 
-mutual
-/-- `parse_with_options` : next token, then `parse_from_token_with_options` -/
-def parseObj (o : LexOpts) : Nat → PS → PR Obj
-  | 0, s => ⟨.diverge, s, 0⟩
+/-- `MAX_OBJECT_NESTING` (objects.rs): deepest nesting of arrays and dictionaries in one object -/
+def MAX_OBJECT_NESTING : Nat := 256
+
+/-- the `while matches!(token, Token::Comment(_))` loop of the comment arm: the first token that is
+not a comment (a loop of one activation) -/
+def skipComments (o : LexOpts) : Nat → PS → Outcome Tok × PS
+  | 0, s => (.diverge, s)
   | fuel + 1, s =>
     match s.next o with
-    | (.ok t, s') => parseFromTok o fuel t s'
+    | (.ok .comment, s') => skipComments o fuel s'
+    | r => r
+
+mutual
+/-- `parse_nested` : next token, then `parse_from_token_nested`; `nd` = number of arrays and
+dictionaries the object is nested in (`parse_with_options` is `parse_nested … 0`) -/
+def parseObj (o : LexOpts) : Nat → Nat → PS → PR Obj
+  | 0, _, s => ⟨.diverge, s, 0⟩
+  | fuel + 1, nd, s =>
+    match s.next o with
+    | (.ok t, s') => parseFromTok o fuel t nd s'
     | (.err, s') => ⟨.err, s', 0⟩
     | (.panic k, s') => ⟨.panic k, s', 0⟩
     | (.diverge, s') => ⟨.diverge, s', 0⟩
 
-def parseFromTok (o : LexOpts) : Nat → Tok → PS → PR Obj
-  | 0, _, s => ⟨.diverge, s, 0⟩
-  | fuel + 1, t, s =>
+/-- `parse_from_token_nested`.  `[` and `<<` first pass `nested_depth` (error at
+`MAX_OBJECT_NESTING`); a comment is followed by a loop over further comments and ONE call on the
+first other token. -/
+def parseFromTok (o : LexOpts) : Nat → Tok → Nat → PS → PR Obj
+  | 0, _, _, s => ⟨.diverge, s, 0⟩
+  | fuel + 1, t, nd, s =>
     match t with
     | .null => ⟨.ok .null, s, 1⟩
     | .bool b => ⟨.ok (.bool b), s, 1⟩
     | .real => ⟨.ok .real, s, 1⟩
     | .str bs => ⟨.ok (.str bs), s, 1⟩
     | .name n => ⟨.ok (.name n), s, 1⟩
+    | .refKw => ⟨.ok (.name [82]), s, 1⟩
     | .int i =>
-      if ¬ (0 ≤ i ∧ i ≤ 9999999) then ⟨.ok (.int i), s, 1⟩
+      -- an object number is a `u32`
+      if ¬ (0 ≤ i ∧ i ≤ 4294967295) then ⟨.ok (.int i), s, 1⟩
       else
         match s.next o with
         | (.ok (.int g), s1) =>
           if 0 ≤ g ∧ g ≤ 65535 then
             match s1.next o with
-            | (.ok (.name [82]), s2) => ⟨.ok (.ref i.toNat g.toNat), s2, 1⟩
+            -- `Token::Name(s) if s == "R" && lexer.last_token_was_ref_keyword()`
+            | (.ok .refKw, s2) => ⟨.ok (.ref i.toNat g.toNat), s2, 1⟩
             | (.ok t2, s2) => ⟨.ok (.int i), (s2.push t2).push (.int g), 1⟩
             | (.err, s2) => ⟨.err, s2, 1⟩
             | (.panic k, s2) => ⟨.panic k, s2, 1⟩
@@ -341,38 +369,47 @@ def parseFromTok (o : LexOpts) : Nat → Tok → PS → PR Obj
         | (.panic k, s1) => ⟨.panic k, s1, 1⟩
         | (.diverge, s1) => ⟨.diverge, s1, 1⟩
     | .arrStart =>
-      let r := parseArr o fuel s []
-      ⟨r.val, r.st, r.depth + 1⟩
+      if nd ≥ MAX_OBJECT_NESTING then ⟨.err, s, 1⟩
+      else
+        let r := parseArr o fuel (nd + 1) s []
+        ⟨r.val, r.st, r.depth + 1⟩
     | .dictStart =>
-      let r := parseDictInner o fuel s []
-      match r.val with
-      | .ok kvs =>
-        let r2 := afterDict o fuel r.st
-        ⟨(match r2.val with
-          | .ok _ => .ok (.dict kvs)
-          | .err => .err
-          | .panic k => .panic k
-          | .diverge => .diverge), r2.st, r.depth + 1⟩
-      | .err => ⟨.err, r.st, r.depth + 1⟩
-      | .panic k => ⟨.panic k, r.st, r.depth + 1⟩
-      | .diverge => ⟨.diverge, r.st, r.depth + 1⟩
+      if nd ≥ MAX_OBJECT_NESTING then ⟨.err, s, 1⟩
+      else
+        let r := parseDictInner o fuel (nd + 1) s []
+        match r.val with
+        | .ok kvs =>
+          let r2 := afterDict o fuel r.st
+          ⟨(match r2.val with
+            | .ok _ => .ok (.dict kvs)
+            | .err => .err
+            | .panic k => .panic k
+            | .diverge => .diverge), r2.st, r.depth + 1⟩
+        | .err => ⟨.err, r.st, r.depth + 1⟩
+        | .panic k => ⟨.panic k, r.st, r.depth + 1⟩
+        | .diverge => ⟨.diverge, r.st, r.depth + 1⟩
     | .comment =>
-      let r := parseObj o fuel s
-      ⟨r.val, r.st, r.depth + 1⟩
+      match skipComments o fuel s with
+      | (.ok t', s') =>
+        let r := parseFromTok o fuel t' nd s'
+        ⟨r.val, r.st, r.depth + 1⟩
+      | (.err, s') => ⟨.err, s', 1⟩
+      | (.panic k, s') => ⟨.panic k, s', 1⟩
+      | (.diverge, s') => ⟨.diverge, s', 1⟩
     | _ => ⟨.err, s, 1⟩
 
-/-- the loop of `parse_array_with_options` -/
-def parseArr (o : LexOpts) : Nat → PS → List Obj → PR Obj
-  | 0, s, _ => ⟨.diverge, s, 0⟩
-  | fuel + 1, s, acc =>
+/-- the loop of `parse_array_with_options`; `nd` = nesting depth of the elements -/
+def parseArr (o : LexOpts) : Nat → Nat → PS → List Obj → PR Obj
+  | 0, _, s, _ => ⟨.diverge, s, 0⟩
+  | fuel + 1, nd, s, acc =>
     match s.next o with
     | (.ok .arrEnd, s') => ⟨.ok (.arr acc.reverse), s', 0⟩
-    | (.ok .comment, s') => parseArr o fuel s' acc
+    | (.ok .comment, s') => parseArr o fuel nd s' acc
     | (.ok t, s') =>
-      let r := parseFromTok o fuel t s'
+      let r := parseFromTok o fuel t nd s'
       match r.val with
       | .ok v =>
-        let r2 := parseArr o fuel r.st (v :: acc)
+        let r2 := parseArr o fuel nd r.st (v :: acc)
         ⟨r2.val, r2.st, max r.depth r2.depth⟩
       | .err => ⟨.err, r.st, r.depth⟩
       | .panic k => ⟨.panic k, r.st, r.depth⟩
@@ -381,23 +418,25 @@ def parseArr (o : LexOpts) : Nat → PS → List Obj → PR Obj
     | (.panic k, s') => ⟨.panic k, s', 0⟩
     | (.diverge, s') => ⟨.diverge, s', 0⟩
 
-/-- the loop of `parse_dictionary_inner_with_options` -/
-def parseDictInner (o : LexOpts) : Nat → PS → List (Bytes × Obj) → PR (List (Bytes × Obj))
-  | 0, s, _ => ⟨.diverge, s, 0⟩
-  | fuel + 1, s, acc =>
+/-- the loop of `parse_dictionary_inner_nested`; `nd` = nesting depth of the values -/
+def parseDictInner (o : LexOpts) : Nat → Nat → PS → List (Bytes × Obj) → PR (List (Bytes × Obj))
+  | 0, _, s, _ => ⟨.diverge, s, 0⟩
+  | fuel + 1, nd, s, acc =>
     match s.next o with
     | (.ok .dictEnd, s') => ⟨.ok acc.reverse, s', 0⟩
-    | (.ok .comment, s') => parseDictInner o fuel s' acc
-    | (.ok (.name key), s') =>
-      let r := parseObj o fuel s'
-      match r.val with
-      | .ok v =>
-        let r2 := parseDictInner o fuel r.st ((key, v) :: acc)
-        ⟨r2.val, r2.st, max r.depth r2.depth⟩
-      | .err => ⟨.err, r.st, r.depth⟩
-      | .panic k => ⟨.panic k, r.st, r.depth⟩
-      | .diverge => ⟨.diverge, r.st, r.depth⟩
-    | (.ok _, s') => ⟨.err, s', 0⟩
+    | (.ok .comment, s') => parseDictInner o fuel nd s' acc
+    | (.ok t, s') =>
+      match tokKey t with
+      | some key =>
+        let r := parseObj o fuel nd s'
+        match r.val with
+        | .ok v =>
+          let r2 := parseDictInner o fuel nd r.st ((key, v) :: acc)
+          ⟨r2.val, r2.st, max r.depth r2.depth⟩
+        | .err => ⟨.err, r.st, r.depth⟩
+        | .panic k => ⟨.panic k, r.st, r.depth⟩
+        | .diverge => ⟨.diverge, r.st, r.depth⟩
+      | none => ⟨.err, s', 0⟩
     | (.err, s') => ⟨.err, s', 0⟩
     | (.panic k, s') => ⟨.panic k, s', 0⟩
     | (.diverge, s') => ⟨.diverge, s', 0⟩
@@ -415,11 +454,11 @@ def afterDict (o : LexOpts) : Nat → PS → PR Unit
     | (.diverge, s') => ⟨.diverge, s', 0⟩
 end
 
-/-- one object from the start of `inp`; the fuel `3 * length + 8` is never exhausted (every
-activation that does not return at once has consumed a byte or popped a pushed-back token, and at
-most two tokens are ever pushed back) -/
+/-- one object from the start of `inp` (`PdfObject::parse_with_options`); the fuel `3 * length + 8`
+is never exhausted (every activation that does not return at once has consumed a byte or popped a
+pushed-back token, and at most two tokens are ever pushed back) -/
 def parseTop (o : LexOpts) (inp : Bytes) : PR Obj :=
-  parseObj o (3 * inp.length + 8) ⟨inp, [], 0, false⟩
+  parseObj o (3 * inp.length + 8) 0 ⟨inp, [], 0, false⟩
 
 /-! ## content-stream tokenizer (`ContentTokenizer::next_token`, content.rs 452-866):
 structure only (token boundaries and the self-call depth), no values -/
@@ -433,14 +472,9 @@ def cSkipOp : Bytes → Bytes × Bytes
   | [] => ([], [])
   | b :: rest => if isOpDelim b then ([], b :: rest) else let (w, r) := cSkipOp rest; (b :: w, r)
 
-/-- the self-recursion of `ContentTokenizer::next_token` seen from one token start: number of
-activations until a token start that is not one of `; ) { }` (white space and comments in between
-are skipped by the loop `skip_whitespace` of each activation) -/
-def cSkipDepth : Bytes → Nat
-  | [] => 1
-  | b :: rest =>
-    if b == 59 || b == 41 || b == 123 || b == 125 then cSkipDepth rest + 1
-    else if b == 32 || b == 9 || b == 13 || b == 10 || b == 12 then cSkipDepth rest
-    else 1
+/-- nesting of `ContentTokenizer::next_token` activations seen from one token start: the stray
+delimiters `; ) { }` (and the white space and comments between them) are skipped by a `loop` of the
+same activation (before the repair each of them was a self-call, see `cSkipDepthOld`) -/
+def cSkipDepth (_ : Bytes) : Nat := 1
 
 end OxiVerif.C01
